@@ -10,9 +10,14 @@ from .. import ber, cost, gens, mutate, rfc4511, rfc4512, rfc4515
 from ..engine import QUICK, THOROUGH, Ctx, Part, Property, Violation
 
 MAX_LEN = 400
-_SUFFIX = ["keep", "truncate", "drop-close", "drop-quote", "foreign", "foreign-tail"]
+_SUFFIX = ["keep", "truncate", "drop-close", "drop-quote", "foreign", "foreign-tail",
+           # a foreign character right after the pump: the late failure may need a particular offending character
+           "tail:(", "tail:)", "tail:\x00", "tail:\\", "tail:'", "tail:\u00e9", "tail:*", "tail: "]
 
 _ALPHABET: t.List[str] = []
+# per process: how often a label was confirmed already (on a broken tree thousands of families blow up; a few
+# confirmations per root cause are enough, the rest is only counted)
+_CONFIRMED: t.Counter[str] = __import__("collections").Counter()
 
 
 def alphabet() -> t.List[str]:
@@ -45,6 +50,8 @@ def text_member(case: t.Dict[str, t.Any]) -> t.Callable[[int], str]:
     elif mode == "foreign":
         k = rest.rfind(")")
         suffix = (rest[:k] + "\x01" + rest[k:]) if k >= 0 else rest + "\x01"
+    elif mode.startswith("tail:"):
+        suffix = mode[5:] + rest
     else:
         suffix = "!" + rest
     return lambda n: prefix + pump * n + suffix
@@ -149,9 +156,9 @@ _RECV = ["pdus", "nest-not", "nest-seq", "tag-run", "len-run", "huge-length", "c
 
 def check_family(entry: str, member: t.Callable[[int], t.Any], label: str, ctx: Ctx, step: int = 2, lines: bool = False,
                  line_sizes: t.Sequence[int] = (8, 16, 32, 64, 128), info: t.Optional[t.Dict[str, t.Any]] = None,
-                 max_points: int = 400) -> t.List[Violation]:
+                 max_points: int = 400, first: t.Optional[cost.Ramp] = None) -> t.List[Violation]:
     out: t.List[Violation] = []
-    r = cost.ramp(entry, member, start=4, step=step, max_len=MAX_LEN, stop_s=0.05, alarm_s=6, max_points=max_points)
+    r = first if first is not None else cost.ramp(entry, member, start=4, step=step, max_len=MAX_LEN, stop_s=0.05, alarm_s=6, max_points=max_points)
     ctx.event(f"ramp:{r.stopped}")
     if info is not None:
         info["fails"] = any(r.raised) or r.stopped == "killed"
@@ -160,12 +167,16 @@ def check_family(entry: str, member: t.Callable[[int], t.Any], label: str, ctx: 
         suspicious = True
     if r.stopped == "killed":
         suspicious = True
+    if suspicious and _CONFIRMED[label] >= 1:
+        ctx.event(f"suspicious-again:{label}")
+        return out
     if suspicious:
         ctx.event("ramp:suspicious")
         nxt = (r.points[-1][0] + step) if r.stopped == "threshold" else (r.killed_at if r.killed_at is not None else 4)
         c = cost.ramp(entry, member, start=nxt, step=step, max_len=MAX_LEN, stop_s=1.0, alarm_s=12)
         confirmed = (c.stopped == "threshold" and c.points and c.points[-1][1] > 1.0) or c.stopped == "killed"
         if confirmed:
+            _CONFIRMED[label] += 1
             pts = (r.points[-5:] + c.points[:4])
             worst = c.killed_at if c.stopped == "killed" else c.points[-1][0]
             sample = member(worst if worst is not None else nxt)
@@ -258,32 +269,49 @@ class PumpSweep(Part):
         ("filter", "(&(cn;lang-en=a\\2ab*c)(|(1.2.3:dn:2.5.13.2:=v)(!(o>=1))))"),
     ]
     SYMBOLS = ["1", "0", "a", "A", " ", "-", "_", ".", "'", "\\", "$", "(", ")", "{", ";", ":", "*", "=", "\\27", "1.", ".1", "a ", " a",
-               "' '", "$ a", ";a", "(!", "(&", "\\2"]
+               "' '", "$ a", ";a", "(!", "(&", "\\2", "\\41", "'v' ", "a*"]
 
     def enumerate(self, tier: str, shard: int, nshards: int) -> t.Iterable[t.Any]:
+        # one case = all families at one position of one sentence (a batch shares a forked child)
         k = 0
         for entry, base in self.SENTENCES:
             for pos in range(len(base) + 1):
-                for sym in self.SYMBOLS:
-                    for suffix in _SUFFIX:
-                        if k % nshards == shard:
-                            yield {"entry": entry, "base": base, "pos": pos, "plen": 1, "sym": sym, "suffix": suffix}
-                        k += 1
+                if k % nshards == shard:
+                    yield {"entry": entry, "base": base, "pos": pos}
+                k += 1
+
+    def families(self, case: t.Any) -> t.List[t.Dict[str, t.Any]]:
+        return [{"entry": case["entry"], "base": case["base"], "pos": case["pos"], "plen": 1, "sym": sym, "suffix": suffix}
+                for sym in self.SYMBOLS for suffix in _SUFFIX]
 
     def check(self, case: t.Any, ctx: Ctx) -> t.List[Violation]:
-        where = pump_context(case)
-        ctx.event(f"entry:{case['entry']}")
-        ctx.event(f"pump-in:{where}")
+        fams = self.families(case)
+        where = pump_context(fams[0])
         label = ("filter" if case["entry"] == "filter" else "schema") + ":" + where
-        info: t.Dict[str, t.Any] = {}
-        out = check_family(case["entry"], text_member(case), label, ctx, info=info, max_points=36)
-        if info.get("fails"):
-            ctx.event("member-fails-to-parse")
-            ctx.nontrivial((case["entry"], case["pos"], case["sym"], case["suffix"]))
-        return out
+        if _CONFIRMED[label] >= 1 or sum(_CONFIRMED.values()) >= 3:
+            ctx.event("sweep-position-skipped-after-confirmed-violations")
+            return []
+        ramps = cost.ramp_many(case["entry"], [text_member(f) for f in fams], start=4, step=2, max_len=MAX_LEN, stop_s=0.05, alarm_s=3,
+                               max_points=26)
+        ctx.extra_evaluations += len(fams) - 1
+        ctx.event(f"entry:{case['entry']}", len(fams))
+        ctx.event(f"pump-in:{where}", len(fams))
+        out: t.List[Violation] = []
+        for f, r in zip(fams, ramps):
+            if any(r.raised) or r.stopped == "killed":
+                ctx.event("member-fails-to-parse")
+                ctx.nontrivial((f["entry"], f["pos"], f["sym"], f["suffix"]))
+            if r.stopped in ("threshold", "killed"):
+                out.extend(check_family(f["entry"], text_member(f), label, ctx, max_points=26, first=r))
+            else:
+                ctx.event(f"ramp:{r.stopped}")
+        seen = set()
+        return [v for v in out if not (v.key in seen or seen.add(v.key))]
 
     def sample(self, case: t.Any) -> t.Any:
-        return {"entry": case["entry"], "pos": case["pos"], "pump": case["sym"], "suffix": case["suffix"], "member(3)": text_member(case)(3)}
+        f = self.families(case)[7]
+        return {"entry": case["entry"], "pos": case["pos"], "families_at_this_position": len(self.SYMBOLS) * len(_SUFFIX),
+                "one of them": {"pump": f["sym"], "suffix": f["suffix"], "member(3)": text_member(f)(3)}}
 
 
 class ReceiveFieldSweep(Part):
@@ -309,11 +337,9 @@ class ReceiveFieldSweep(Part):
                     cur = cur[key]
                 if isinstance(cur, str) and cur in msgcheck._TAG_WORDS and isinstance(path[-1], int) and path[-1] == 0:
                     continue
-                for sym in self.SYMBOLS:
-                    for suf in self.SUFFIXES:
-                        if k % nshards == shard:
-                            yield {"template": tname, "path": list(path), "sym": sym, "suffix": suf, "is_str": isinstance(cur, str)}
-                        k += 1
+                if k % nshards == shard:
+                    yield {"template": tname, "path": list(path), "is_str": isinstance(cur, str)}
+                k += 1
 
     def member(self, case: t.Any) -> t.Callable[[int], bytes]:
         from .. import msgcheck
@@ -330,13 +356,28 @@ class ReceiveFieldSweep(Part):
         return build
 
     def check(self, case: t.Any, ctx: Ctx) -> t.List[Violation]:
-        ctx.event(f"template:{case['template']}")
-        ctx.nontrivial((case["template"], tuple(case["path"]), case["sym"], case["suffix"]))
+        fams = [dict(case, sym=sym, suffix=suf) for sym in self.SYMBOLS for suf in self.SUFFIXES]
         field = ".".join(str(p) for p in case["path"] if not isinstance(p, int)) or "field"
-        return check_family("recv-server", self.member(case), f"receive:{case['template'].split('/')[0]}:{field}", ctx, max_points=40)
+        label = f"receive:{case['template'].split('/')[0]}:{field}"
+        if _CONFIRMED[label] >= 1 or sum(_CONFIRMED.values()) >= 3:
+            ctx.event("sweep-field-skipped-after-confirmed-violations")
+            return []
+        ramps = cost.ramp_many("recv-server", [self.member(f) for f in fams], start=4, step=2, max_len=MAX_LEN, stop_s=0.05, alarm_s=3,
+                               max_points=40)
+        ctx.extra_evaluations += len(fams) - 1
+        ctx.event(f"template:{case['template']}", len(fams))
+        out: t.List[Violation] = []
+        for f, r in zip(fams, ramps):
+            ctx.nontrivial((f["template"], tuple(f["path"]), f["sym"], f["suffix"]))
+            if r.stopped in ("threshold", "killed"):
+                out.extend(check_family("recv-server", self.member(f), label, ctx, max_points=40, first=r))
+        seen = set()
+        return [v for v in out if not (v.key in seen or seen.add(v.key))]
 
     def sample(self, case: t.Any) -> t.Any:
-        return {"template": case["template"], "field": case["path"], "pump": case["sym"], "suffix": case["suffix"], "member(3)": self.member(case)(3).hex()}
+        f = dict(case, sym="1.", suffix="x")
+        return {"template": case["template"], "field": case["path"], "families_for_this_field": len(self.SYMBOLS) * len(self.SUFFIXES),
+                "one of them": {"pump": "1.", "suffix": "x", "member(3)": self.member(f)(3).hex()}}
 
 
 class KnownShapes(Part):
@@ -381,7 +422,7 @@ PROP = Property(
         "suffix keeps the rest, truncates, drops the closing parenthesis/quote or inserts a foreign character (late "
         "failure); for receive: many PDUs, deep nesting, tag/length octet runs, huge declared lengths, long control/"
         "filter/substring lists, byte-wise delivery, and a complete sweep pumping every str/bytes field of one message per kind "
-        "with 16 class symbols x 4 endings; plus a complete sweep (every position x 29 class symbols x 6 suffix "
+        "with 16 class symbols x 4 endings; plus a complete sweep (every position x 32 class symbols x 14 suffix "
         "modes) over one feature-rich sentence per entry point, and a fixed list of 37 classic shapes. Oracle (scaling relation): "
         "(b) members are ramped n=4,6,8.. (<= 400 units) in a forked child killed by a CPU-time alarm; a family "
         "violates the property if CPU time at least doubled on each of the last three +2 steps ending above 50 ms AND a "
